@@ -824,14 +824,21 @@ func runCleanerRace(run *vk.Run, rep int) {
 		off = got[len(got)-1]
 	}
 	st.mu.Unlock()
+	lostAt := time.Now()
 	ad.PersistSession(&adapter.SessionToPersist{SID: "v", PID: "pv", Rooms: []adapter.Room{"v"}})
 	ad.DeleteAll("v")
 	st.Remove("v")
 	time.Sleep(150 * time.Millisecond)
 	mustHave := int(returned.Load())
 	sess, ok := ad.RestoreSession("pv", off.offset)
+	away := time.Since(lostAt)
 	close(stop)
 	<-done
+	if away > window-150*time.Millisecond {
+		// the 150 ms nap overshot badly (loaded machine): the offset entry may legitimately have expired
+		run.Inconclusive(fmt.Sprintf("cleaner race: the session was away %v (planned 150 ms, window %v)", away.Round(time.Millisecond), window))
+		return
+	}
 	passes := adapter.VerifHookHits(hookCleaner) - passes0
 	fields := map[string]any{"binary": false, "cleaner": true, "concurrent_broadcasts": true}
 	wit := map[string]any{"window_ms": window.Milliseconds(), "cleaner_ms": 1, "offset_uid": off.uid, "last_uid_returned_before_restore": mustHave, "cleaner_passes": passes, "seed": run.Seed()}
